@@ -11,6 +11,7 @@ open RV.C17
 #print axioms generated_prefix_fresh
 #print axioms document_names_expand
 #print axioms trig_names_expand
+#print axioms xml_names_expand_partial
 #print axioms no_loop
 #print axioms split_uri_complete
 #print axioms qname_fails_only_unsplittable
